@@ -150,6 +150,9 @@ def main(pid, tier, seed, replay=None):
     ctx = {'pid': pid, 'tier': tier, 'seed': seed, 'rng': rng, 'replay': replay, 'known_classes': kclasses}
     import regress
     n_fixed, fixed_fail = regress.replay_fixed(pid)
+    import corpus
+    n_corpus, corpus_fail = corpus.replay(pid)
+    fixed_fail = fixed_fail + corpus_fail
     try:
         res = mod.explore(ctx)
     except Exception:                      # the harness could not interpret what the implementation did
@@ -160,6 +163,7 @@ def main(pid, tier, seed, replay=None):
                'failures': [{'kind': 'corr', 'what': 'the harness could not interpret the behaviour of the implementation', 'payload': {'traceback': tb[-3000:]}}]}
     coverage.update(res['coverage'])
     coverage['fixed_witnesses_replayed'] = n_fixed
+    coverage['regression_corpus_cases_replayed'] = n_corpus
     failures = fixed_fail + res['failures']          # list of dict(kind='spec'|'corr', what, case/replay payload, known=None|id)
     for line in res.get('known_lines', []):
         if line not in known_lines:
